@@ -237,3 +237,17 @@ def write_cfg(path, init='Init', next_='Next', constants=None, invariants=(), pr
 
 def tla_set(items):
     return '{' + ', '.join('"%s"' % i if isinstance(i, str) else str(i) for i in items) + '}'
+
+
+def run_tlapm(modules, main, timeout=1500):
+    """copy the modules to a scratch directory, run tlapm on `main`; -> (obligations proved or None, output tail)"""
+    tmp = tempfile.mkdtemp(prefix='tlaps_', dir=os.environ.get('VERIF_TMP', '/tmp'))
+    try:
+        for f in modules:
+            shutil.copy(os.path.join(SPEC, f), tmp)
+        p = subprocess.run(['tlapm', '-I', '/opt/veriftools/tla', main], cwd=tmp, capture_output=True, text=True, timeout=timeout)
+        out = p.stdout + p.stderr
+    finally:
+        shutil.rmtree(tmp, ignore_errors=True)
+    m = re.search(r'All (\d+) obligations? proved', out)
+    return (int(m.group(1)) if m else None), out[-3000:]
